@@ -7,7 +7,7 @@ import numpy as np
 from hypothesis import strategies as st
 
 from mv.quiet import silenced, workdir
-from mv.runner import HypPart, Violation
+from mv.runner import FuzzPart, HypPart, Violation
 
 PROPERTY = "C16"
 RULE = ("Hypothesis-generated CML documents of the Avogadro flavour (no XML namespace, like all nine .cml files in the "
@@ -167,4 +167,5 @@ def oracle(doc, stats):
 
 PARTS = [
     HypPart("documents", lambda tier: document(), oracle, {"quick": 4000, "thorough": 60000}),
+    FuzzPart("coverage-guided-documents", "documents", runs=5000),
 ]
